@@ -110,11 +110,11 @@ func init() {
 			l.rec.log(t.idx, "D", "tick", "ms", 5300)
 			before := t.nrecv.Load()
 			t.send(t.frame(0x0002, nil))
-			t.waitRecv(before+2, 3*time.Second) // the heartbeat's reply and the 0x8003
+			t.waitRecv(before+2, 10*time.Second) // the heartbeat's reply and the 0x8003
 			kp.recheck(l, t.idx, "after-re-request")
 			part(2)
 			part(3)
-			t.waitRecv(before+3, 3*time.Second) // the 0x8800 for the completed message
+			t.waitRecv(before+3, 10*time.Second) // the 0x8800 for the completed message
 			kp.recheck(l, t.idx, "after-late-completion")
 			time.Sleep(30 * time.Millisecond)
 			l.rec.log(t.idx, "D", "end")
